@@ -212,6 +212,44 @@ def rule_ml(repo: Repo, rep: Report) -> int:
     return n + 1
 
 
+def syndromes_evaluated(rep: Report, sp: FuncInfo) -> int:
+    """S_i = r(alpha^i), i = 1..2t: the syndrome routine is run (own GF(16) arithmetic, model objects for field and
+    elements) for t = 7 on received words of weight 1..3 and compared with the definition - every one of the 2t values,
+    including the even-index ones a conjugate shortcut would derive from S_odd."""
+    from ..constfold import Unfoldable
+    from ..frag import FragRaise, FragReturn, run_fragment
+    from .. import gf2
+
+    field = gf2.FieldModel(4, 0b10011)
+    alpha = field(2)
+    t_, nn = 7, 15
+    what = "syndromes S_1 .. S_2t of a received word"
+    for supp in ([0], [1], [5], [14], [2, 9], [0, 7, 13], [3, 4, 5]):
+        received = [field.one if j in supp else field.zero for j in range(nn)]
+        want = []
+        for i in range(1, 2 * t_ + 1):
+            acc = field.zero
+            for j in supp:
+                acc = acc + (alpha ** (i * j))
+            want.append(acc.value)
+        try:
+            run_fragment(sp.body, {"received": received}, {"self._alpha": alpha, "self._field": field, "self._error_correction_capability": t_, "self._length": nn, "self.field": field}, max_steps=400000)
+            rep.undecided("BM", sp, what, "no value returned")
+            return 1
+        except FragReturn as r:
+            got = r.value
+        except (Unfoldable, FragRaise, TypeError, IndexError) as exc:
+            rep.undecided("BM", sp, what, f"not evaluable ({exc})")
+            return 1
+        gv = [x.value if isinstance(x, gf2.FieldElem) else x for x in got] if isinstance(got, list) else got
+        if gv != want:
+            k = next((i for i, (a, b) in enumerate(zip(gv, want)) if a != b), 0) if isinstance(gv, list) and len(gv) == len(want) else None
+            rep.violation("BM", sp, what, (f"for a received word with ones at positions {supp} (n = 15, t = 7, GF(16)) S_{k + 1} is computed as {gv[k]:#06b}; r(alpha^{k + 1}) is {want[k]:#06b}" if k is not None else f"for ones at {supp} the routine returns {len(gv) if isinstance(gv, list) else gv} values instead of {len(want)}") + ": Berlekamp-Massey is fed a wrong syndrome for every code whose t reaches that index", node=sp.node)
+            return 1
+    rep.ok("BM", sp, what, "equal to r(alpha^i) for i = 1..14 on 7 received words over GF(16)", node=sp.node)
+    return 1
+
+
 def chien_evaluated(rep: Report, fe: FuncInfo) -> None:
     """An unlisted spelling of the root search is run (own GF(2^4) arithmetic, frag evaluator) on error locators
     sigma(x) = prod (1 + alpha^p x) built from known position sets; it must return exactly those positions."""
@@ -253,6 +291,7 @@ def rule_bm(repo: Repo, rep: Report) -> int:
     vals = {attr_chain(s.targets[0]): unparse(s.value) for s in stmts_of(init.body) if isinstance(s, ast.Assign) and attr_chain(s.targets[0])}
     rep.expect(vals.get("self.t") == "encoder.error_correction_capability" and vals.get("self.field") == "encoder._field", "BM", init, f"t = {vals.get('self.t')}, field = {vals.get('self.field')}", "capability and field of the encoder", "decoder parameters are not taken from the encoder")
     sp = repo.func(BCH, "BCHCodeEncoder.calculate_syndrome_polynomial")
+    n += syndromes_evaluated(rep, sp)
     loops = [s for s in sp.body if isinstance(s, ast.For)]
     it = unparse(loops[0].iter) if loops else "?"
     if it == "range(1, 2 * self._error_correction_capability + 1)":
